@@ -105,3 +105,12 @@ Print Assumptions C15_pong_echo.
 Theorem C15_ping_number_limit : forall n, 2 ^ 448 <= n -> exists bs, sendPING n [] = Ok bs /\ scan_token bs = HBad.
 Proof. exact ping_number_too_big. Qed.
 Print Assumptions C15_ping_number_limit.
+
+(* ... in EVERY receiver state: with a discard counter d (the rest of a rejected / aborted sequence is being
+   skipped) and any pattern `bad` of Violations, each PING is still answered by one PONG with its number, in
+   order, and what the object grammar sees does not depend on the PING/PONG tokens *)
+Theorem C15_ping_pong_any_state : forall bad toks d i,
+  rx_disc bad d i toks =
+  (fst (rx_disc bad d i (strip toks)), map fst (filter (fun t => snd t =? tok_PING) toks)).
+Proof. intros; apply rx_disc_spec. Qed.
+Print Assumptions C15_ping_pong_any_state.
